@@ -31,6 +31,10 @@ const (
 	ExitPageFault = ExitReason(PAGE_FAULT) << 56 // 0x04000000XXXXXXXX
 	ExitHostCall  = ExitReason(HOST_CALL) << 56  // 0x050000000000XXXX
 
+	// exitContinueSelfBranch has reason type CONTINUE and marks a taken branch or dynamic jump whose
+	// target is the instruction's own pc; the engines otherwise recognise a taken branch by
+	// "new pc != pc" and would fall through such a self-loop.
+	exitContinueSelfBranch = ExitContinue | 1
 )
 
 func (e ExitReason) String() string {
